@@ -89,12 +89,30 @@ contract(T + ".autophagy", "C13", locks=OWNED, raises=[],
                   "counters-unchanged": "self._total_ingested == old(self)._total_ingested and self._total_digested == old(self)._total_digested"})
 
 
+# ---------------------------------------------------------------- construction: the bounds the queue clauses speak about are the caller's
+contract(T + ".__init__", "C13", is_init=True, params={"digesters": "none", "on_toxic": "opt:callback"}, raises=[],
+         requires=["max_queue_size >= 2", "auto_digest_threshold >= 1"],
+         ensures={"bounds-are-stored-as-given": "self.max_queue_size == max_queue_size and self.auto_digest_threshold == auto_digest_threshold",
+                  "starts-empty": "len(self._queue) == 0 and self._total_ingested == 0 and self._total_digested == 0"})
+
+
 def native_replay(rep):
     """queues are symbolic object lists: witnesses (hangs, unlocked writes, bound/accounting breaks) are searched for with
     small configurations and operation sequences on the real Lysosome under a watchdog"""
     import os, sys
     sys.path.insert(0, os.path.dirname(os.path.dirname(os.path.abspath(__file__))))
     from native import c13_bounded
+    if rep.get("kind") == "owns":
+        # an unlocked access of a guarded field: the witness is a two-thread schedule
+        import subprocess, json as _json
+        p_ = subprocess.run(["/venv/bin/python", os.path.join(os.path.dirname(os.path.dirname(os.path.abspath(__file__))), "native", "c13_sched.py")],
+                            capture_output=True, text=True, timeout=120)
+        try:
+            o_ = _json.loads(p_.stdout.strip().splitlines()[-1])
+            if o_.get("status") == "violation":
+                return {"confirmed": True, "observed": o_["detail"], "found_by": f"two-thread schedules ({o_['cases']} cases)"}
+        except (IndexError, ValueError):
+            pass
     n, bad = c13_bounded.search(3)
     if bad is None:
         return {"confirmed": False, "observed": f"no failing history among {n} enumerated (depth 3)"}
